@@ -10,7 +10,7 @@ MC_PNames == {p1, p2}
 MC_ANames == IF NChan >= 2 THEN {a1, a2} ELSE {a1}     \* a second channel name: channel columns can be added to existing frames
 MC_PRates == {FOfNat(100)}
 MC_ARates == {FOfNat(200)}
-MC_FrameKinds == {"conf"}
+MC_FrameKinds == IF NCallers = 0 THEN {"conf", "noan", "nopts"} ELSE {"conf"}     \* also frames carrying only their points / only their analogs
 MC_ColKinds == {"ok1"}
 MC_Tags == IF NTags = 0 THEN {0} ELSE 0..(NTags - 1)      \* 0 = automatic payload (distinct per data-set size and target)
 MC_UserParams == <<>>
@@ -18,5 +18,5 @@ MC_LockNames == {}
 MC_CallerIds == 1..NCallers
 \* the parameter tree is compared on every transition of MC_Shape / MC_Params; here the frames and the header are exported
 MC_Files == <<>>
-Dump == PrintT(ToJson([path |-> hist, op |-> lastOp', out |-> lastOut', post |-> [hdr |-> AbsHdr(obj'.hdr), frm |-> obj'.frm]]))
+Dump == ~Sampled(Len(hist)) \/ PrintT(ToJson([path |-> hist, op |-> lastOp', out |-> lastOut', post |-> [hdr |-> AbsHdr(obj'.hdr), frm |-> obj'.frm]]))
 =========================================================================
